@@ -288,13 +288,18 @@ def r09b(model: Model, rr: RuleResult):
         if st is None:
             rr.bad(ifi, ifi.node, f"_input_files has no branch for {need}", construct=f"_input_files: {need}")
             continue
-        ext = [c for c in calls_in(st) if callee_tail(c) == "extend"]
-        if not ext:
+        # what the branch adds to the result: xs.extend(E), xs += E, xs.append(E) in a loop
+        ext = [c.args[0] for c in calls_in(st) if callee_tail(c) in ("extend", "append") and c.args] + \
+              [a_.value for a_ in ast.walk(st) if isinstance(a_, ast.AugAssign) and isinstance(a_.op, ast.Add)]
+        empty_body = all(isinstance(b_, ast.Pass) for b_ in st.body)
+        if not ext and empty_body:
             rr.bad(ifi, st, f"_input_files: branch {need} adds nothing", construct=short(st, 80))
+        elif not ext:
+            rr.bad_shape(ifi, st, f"_input_files: branch {need} adds nothing", construct=short(st, 80))
         elif fn and fn not in norm(ext[0]):
             rr.bad(ifi, st, f"_input_files: branch {need} does not list {fn}(...) of each source", construct=short(ext[0]))
         else:
-            rr.ok(f"_input_files: {need} -> {short(ext[0].args[0], 70)}")
+            rr.ok(f"_input_files: {need} -> {short(ext[0], 70)}")
 
 
 @RULES.rule("C09", "R09c", "configs and build.ninja are rewritten on every run before ninja", floor=3)
